@@ -15,6 +15,16 @@ Record ix_ok (sf : sfile) (L : list id) (ix : inmem) : Prop := mkIxOk {
   xo_live : forall i, In i L -> exists s, sf_key sf i = Some s /\ sf_deleted sf i = false
 }.
 
+(* what holds of the tag entries of EVERY measurement, also the dirty ones (between an
+   Index.DropSeriesGlobal and the next Index.Rebuild): every tag of a live series has its entry;
+   an entry that is not one of those carries an id the series file has deleted *)
+Record tv_weak (sf : sfile) (L : list id) (ix : inmem) : Prop := mkTvWeak {
+  tw_complete : forall m k v i s, In i L -> sf_key sf i = Some s -> fst s = m -> In (k, v) (snd s) -> In (m, k, v, i) (ix_tv ix);
+  tw_sound : forall m k v i, In (m, k, v, i) (ix_tv ix) ->
+             (In i L /\ exists s, sf_key sf i = Some s /\ fst s = m /\ In (k, v) (snd s)) \/
+             (sf_deleted sf i = true /\ (i < sf_next sf)%N)
+}.
+
 Lemma ix_ok_empty sf : ix_ok sf [] ix_empty.
 Proof.
   constructor; cbn; try (intros; tauto).
@@ -98,7 +108,6 @@ Section Create.
   Hypothesis I : sf_inv sf.
   Variables (L : list id) (ix : inmem).
   Hypothesis X : ix_ok sf L ix.
-  Hypothesis Xd : ix_dirty ix = [].
 
   Variables (S : list series) (shd : ishard).
   Hypothesis O : ids_ok sf S (sh_sids shd).
@@ -110,7 +119,8 @@ Section Create.
       (forall j, (j < sf_next sf)%N -> sf_key sf' j = sf_key sf j /\ sf_deleted sf' j = sf_deleted sf j) /\
       (forall j sj, sf_key sf' j = Some sj -> (sf_next sf <= j)%N -> j = i) /\
       sf_key sf' i = Some s /\ sf_deleted sf' i = false /\
-      (forall j, In j L' <-> j = i \/ In j L) /\ ix_ok sf' L' ix' /\ ix_dirty ix' = [] /\
+      (forall j, In j L' <-> j = i \/ In j L) /\ ix_ok sf' L' ix' /\
+      (ix_dirty ix' = ix_dirty ix /\ (tv_weak sf L ix -> tv_weak sf' L' ix')) /\
       (forall j, In j (sh_sids shd') <-> j = i \/ In j (sh_sids shd)) /\ NoDup (sh_sids shd').
   Proof.
     unfold ix_create.
@@ -150,8 +160,9 @@ Section Create.
         apply X3 in Hin. tauto. }
       unfold ix_add_series, ix_mids. cbn [fst snd ix_ms]. fold (ix_mids ix m). rewrite Hmids.
       cbn [ix_series ix_mm ix_ms ix_tv ix_dirty ix_del].
-      exists i, (i :: L). ssplit; auto; try apply Hjoin; [cbn; intros j; split; [intros [<-|H]; auto|intros [->|H]; auto]|].
-      constructor; cbn [ix_series ix_mm ix_ms ix_tv ix_dirty ix_del].
+      set (ix' := mkIx _ _ _ _ _ _).
+      assert (HX' : ix_ok sf' (i :: L) ix').
+      { constructor; unfold ix'; cbn [ix_series ix_mm ix_ms ix_tv ix_dirty ix_del].
       + intros s' j. cbn [In]. rewrite X1. split.
         * intros [H|[Hj Hkj]]; [inversion H; subst; auto|auto].
         * intros [[<-|Hj] Hkj]; [left; rewrite Hk in Hkj; inversion Hkj; reflexivity|auto].
@@ -166,34 +177,46 @@ Section Create.
         * intros [[<-|Hj] [sj [Hkj [Hm Hin]]]]; [|left; split; [exact Hj|exists sj; auto]].
           rewrite Hk in Hkj. inversion Hkj; subst. cbn in *. right. exists k, v. auto.
       + exact X5.
-      + intros m' Hm'. rewrite Xd in Hm'. destruct Hm'.
-      + intros j [<-|Hj]; [exists (m, t); auto|apply X7; exact Hj].
+      + intros m' Hm'. apply (In_sadd str_eqb str_eqb_eq). right. apply X6. exact Hm'.
+      + intros j [<-|Hj]; [exists (m, t); auto|apply X7; exact Hj]. }
+      assert (HW' : tv_weak sf L ix -> tv_weak sf' (i :: L) ix').
+      { intros [W1 W2]. constructor; unfold ix'; cbn [ix_tv].
+        - intros m' k v j s' Hj Hkj Hm' Hkv. apply In_fold_sadd_tv. destruct Hj as [<-|Hj].
+          + right. rewrite Hk in Hkj. inversion Hkj; subst s'. cbn [fst snd] in *. subst m'. exists k, v. auto.
+          + left. apply (W1 m' k v j s'); auto. rewrite <- (proj1 (HL j Hj)). exact Hkj.
+        - intros m' k v j Hin. apply In_fold_sadd_tv in Hin. destruct Hin as [Hin|[k' [v' [Hkv Eq]]]].
+          + destruct (W2 m' k v j Hin) as [[Hj [s' [Hkj R]]]|[Hdj Hb]].
+            * left. split; [right; exact Hj|]. exists s'. rewrite (proj1 (HL j Hj)). auto.
+            * right. destruct (Hold j Hb) as [_ E2]. rewrite E2. split; [exact Hdj|lia].
+          + inversion Eq; subst. left. split; [left; reflexivity|]. exists (m, t). rewrite Hk. cbn [fst snd]. auto. }
+      exists i, (i :: L). ssplit; auto; try apply Hjoin.
+      cbn; intros j; split; [intros [<-|H]; auto|intros [->|H]; auto].
   Qed.
 End Create.
 
 (* ---------- creating a list of series in one shard ---------- *)
 
 Lemma is_create_list_ok ss : forall sf L ix S shd,
-  sf_inv sf -> ix_ok sf L ix -> ix_dirty ix = [] -> ids_ok sf S (sh_sids shd) -> (forall i, In i (sh_sids shd) -> In i L) ->
+  sf_inv sf -> ix_ok sf L ix -> ids_ok sf S (sh_sids shd) -> (forall i, In i (sh_sids shd) -> In i L) ->
   Forall (fun s => wf_series s = true) ss ->
   let '(sf', ix', shd') := fold_left (fun a s => ix_create (fst (fst a)) (snd (fst a)) (snd a) s) ss (sf, ix, shd) in
   exists L' S',
     sf_inv sf' /\ sf_ext sf sf' /\
     (forall j, (j < sf_next sf)%N -> sf_key sf' j = sf_key sf j /\ sf_deleted sf' j = sf_deleted sf j) /\
     (forall j sj, sf_key sf' j = Some sj -> (sf_next sf <= j)%N -> In j (sh_sids shd')) /\
-    ix_ok sf' L' ix' /\ ix_dirty ix' = [] /\ ids_ok sf' S' (sh_sids shd') /\
+    ix_ok sf' L' ix' /\ (ix_dirty ix' = ix_dirty ix /\ (tv_weak sf L ix -> tv_weak sf' L' ix')) /\ ids_ok sf' S' (sh_sids shd') /\
     (forall x, In x S' <-> In x ss \/ In x S) /\
     (forall j, In j L' <-> In j L \/ In j (sh_sids shd')) /\
     (forall j, In j (sh_sids shd) -> In j (sh_sids shd')).
 Proof.
-  induction ss as [|s ss IH]; intros sf L ix S shd I X Xd O Hsub Hwf; cbn [fold_left].
+  induction ss as [|s ss IH]; intros sf L ix S shd I X O Hsub Hwf; cbn [fold_left].
   - exists L, S. ssplit; auto; try apply sf_ext_refl.
     + intros j sj Hk Hge. apply (sf_key_bound sf I) in Hk. lia.
     + intros x. cbn. tauto.
     + intros j. split; [auto|intros [H|H]; auto].
   - inversion Hwf as [|s' ss' Hs Hss]; subst. cbn [fst snd].
-    pose proof (ix_create_ok sf I L ix X Xd S shd O s) as H1. destruct (ix_create sf ix shd s) as [[sf1 ix1] shd1].
-    destruct H1 as [i [L1 [I1 [E1 [Hold1 [Hnew1 [Hk1 [Hd1 [HL1 [X1 [Xd1 [Hs1 Hnd1]]]]]]]]]]]].
+    pose proof (ix_create_ok sf I L ix X S shd O s) as H1. destruct (ix_create sf ix shd s) as [[sf1 ix1] shd1].
+    destruct H1 as [i [L1 [I1 [E1 [Hold1 [Hnew1 [Hk1 [Hd1 [HL1 [X1 [[Xd1 W1] [Hs1 Hnd1]]]]]]]]]]]].
     assert (O1 : ids_ok sf1 (s :: S) (sh_sids shd1)).
     { assert (Hb : forall j, In j (sh_sids shd) -> (j < sf_next sf)%N).
       { intros j Hj. destruct (io_live _ _ _ O j Hj) as [sj [Hkj _]]. eapply sf_key_bound; eauto. }
@@ -207,15 +230,16 @@ Proof.
       - intros x [<-|Hx]; [exact Hs|apply (io_wf _ _ _ O); exact Hx]. }
     assert (Hsub1 : forall j, In j (sh_sids shd1) -> In j L1).
     { intros j Hj. apply HL1. apply Hs1 in Hj. destruct Hj as [->|Hj]; auto. }
-    specialize (IH sf1 L1 ix1 (s :: S) shd1 I1 X1 Xd1 O1 Hsub1 Hss).
+    specialize (IH sf1 L1 ix1 (s :: S) shd1 I1 X1 O1 Hsub1 Hss).
     destruct (fold_left (fun a s0 => ix_create (fst (fst a)) (snd (fst a)) (snd a) s0) ss (sf1, ix1, shd1)) as [[sf' ix'] shd'].
-    destruct IH as [L' [S' [I' [E' [Hold' [Hnew' [X' [Xd' [O' [HS' [HL' Hmono']]]]]]]]]]].
+    destruct IH as [L' [S' [I' [E' [Hold' [Hnew' [X' [[Xd' W'] [O' [HS' [HL' Hmono']]]]]]]]]]].
     exists L', S'. ssplit; auto.
     + eapply sf_ext_trans; eauto.
     + intros j Hj. assert (j < sf_next sf1)%N by (pose proof (se_next _ _ E1); lia).
       destruct (Hold' j H) as [H1 H2], (Hold1 j Hj) as [H3 H4]. split; congruence.
     + intros j sj Hkj Hge. destruct (N.ltb_spec j (sf_next sf1)) as [Hlt|Hge1]; [|eapply Hnew'; eauto].
       apply Hmono'. rewrite (proj1 (Hold' j Hlt)) in Hkj. rewrite (Hnew1 j sj Hkj Hge). apply Hs1. auto.
+    + congruence.
     + intros x. rewrite HS'. cbn [In]. split; [intros [H|[<-|H]]; auto|intros [[<-|H]|H]; auto].
     + intros j. rewrite HL', HL1. split; [intros [[->|H]|H]; auto; right; apply Hmono'; apply Hs1; auto|intros [H|H]; auto].
     + intros j Hj. apply Hmono'. apply Hs1. auto.
